@@ -34,6 +34,10 @@ def spec_cfgs(tier: str) -> List[Any]:
         for db in ("RuleDB", "Forget", "Forest"):
             res.append(Cfg.of(c, "base", db))
         res.append(Cfg.of(c.with_(stats=("a",)), "base", "RuleDB"))
+        # leaves verified by a strategy that is not the atom strategy (non-atomic verified classes)
+        # facing atoms and decomposed classes of the other specifications
+        for pk in ("ver:a,b", "ver:a", "ver:aa,b"):
+            res.append(Cfg.of(c, pk, "RuleDB"))
         if tier != "quick":
             res.append(Cfg.of(c, "inf1", "RuleDB"))
             res.append(Cfg.of(c.with_(stats=("b",)), "norm", "RuleDB"))
